@@ -49,7 +49,9 @@ var propSpecs = map[string]*PropSpec{
 		{"benchmath", "compare", "AssumeNothing.Compare on all pairs of small samples: both sizes, p in [0,1], symmetric, invariant under reordering and common rescaling, equal to the exact permutation p-value for untied samples, threshold carried — the statistical content lives in the external module go-moremath and is outside deductive reach"}}},
 	"C14": {ID: "C14", Pkgs: []string{"./cmd/benchstat/internal/benchtab", "./benchproc", "./benchmath"}, BoundedChecks: []boundedSpec{
 		{"cmd/benchstat", "pipeline", "the real benchstat() entry point on generated input files under six flag settings (-table/-row/-col/-ignore/-filter), CSV output compared with an independent recomputation from the generated measurements: one cell per (table,row,column) with at least one filtered measurement and no others, centre = median of exactly those values, baseline = first column's cell of the row, sample sizes baseline first, exact rank-sum p-value and delta for untied samples, geomean row, and exactly the expected `benchmarks vary in` warnings — Builder.Add, ToTables (goroutines, maps keyed by Key), summarizeCol and the renderers are not under contract"}}},
-	"C16": {ID: "C16", Pkgs: []string{"./cmd/benchstat/internal/texttab", "./benchproc"}},
+	"C16": {ID: "C16", Pkgs: []string{"./cmd/benchstat/internal/texttab", "./benchproc"}, BoundedChecks: []boundedSpec{
+		{"cmd/benchstat/internal/texttab", "layout", "random tables laid out by the real Table.Format and measured in the output: every cell's text present in full, inside the columns it spans, left cells at the column start, right-aligned cells of a column ending at one offset, centred cells evenly padded, no overlap within a line, no line ending in blanks — the width distribution loop (sorts through closures, permutation of columns) is not under contract"},
+		{"cmd/benchstat", "textcsv", "text and CSV renderings of the same generated inputs under five flag settings: same tables, row labels, intervals, deltas, comparison strings and warning messages; every scaled number equals the CSV value to within half a unit of its last printed digit; header rules at the column boundaries on every header line; numbers of a column end at one offset and lie inside the column's rules — Table.ToText/ToCSV and the scaler are not under contract"}}},
 	"C17": {ID: "C17", Pkgs: []string{"./benchstat", "./internal/stats"}, BoundedChecks: []boundedSpec{
 		{"benchstat", "legacy", "whole Tables() outputs against an independent recomputation: outlier fence (R8 quartiles) and retained values in input order, min<=mean<=max, the significance gate / percentage / direction / note for every pair of samples and each delta test, first-appearance and stable sort order, geomean row — Tables, computeStats and addGeomean are not under contract"}}},
 	"C19": {ID: "C19", Pkgs: []string{"./storage/db", "./storage/query"}, BoundedChecks: []boundedSpec{
